@@ -102,4 +102,188 @@ theorem view_cons_drop (h : Hist) (w' : Nat) (r : Resp) (w : Nat) :
 theorem isReport_next_ne {w w' : Nat} (h : w ≠ w') (r : Resp) : isReport w' (Op.next w, r) = false := by
   cases r <;> simp [isReport, h]
 
+/-! ### the reference interpreter's answers satisfy the property's clauses -/
+
+/-- Every logged answer is the reference answer given the log before it. -/
+def wellLogged : Hist → Prop
+  | [] => True
+  | e :: h => e.2 = expected h e.1 ∧ wellLogged h
+
+theorem wellLogged_log (h : Hist) (ops : List Op) (hw : wellLogged h) : wellLogged (log h ops) := by
+  induction ops generalizing h with
+  | nil => exact hw
+  | cons op ops ih => exact ih _ ⟨rfl, hw⟩
+
+/-- Within a stream's events, every poll of that stream got the reference answer. -/
+def evsOK (n : Name) (s0 : St) (w : Nat) : Hist → Prop
+  | [] => True
+  | e :: l => (∀ r, e = (Op.next w, r) → r = expectedNext ⟨n, s0, l⟩ w) ∧ evsOK n s0 w l
+
+theorem isReport_iff {w : Nat} {e : Ev} : isReport w e = true ↔ ∃ s, e = (Op.next w, Resp.value s) := by
+  obtain ⟨op, r⟩ := e
+  constructor
+  · intro h
+    cases op <;> cases r <;> simp [isReport] at h
+    case next.value w' s => subst h; exact ⟨s, rfl⟩
+  · rintro ⟨s, hs⟩; cases hs; simp [isReport]
+
+theorem lastReported_cons_report (w : Nat) (s : St) (l : Hist) :
+    lastReported w ((Op.next w, Resp.value s) :: l) = some s := by
+  simp [lastReported]
+
+theorem lastReported_cons_other {w : Nat} {e : Ev} (h : isReport w e = false) (l : Hist) :
+    lastReported w (e :: l) = lastReported w l := by
+  obtain ⟨op, r⟩ := e
+  cases op <;> cases r <;> simp [lastReported]
+  case next.value w' s =>
+    intro hw; subst hw; simp [isReport] at h
+
+theorem expectedNext_value {v : View} {w : Nat} {s : St} (h : expectedNext v w = .value s) :
+    s = latest v.name v.start v.evs := by
+  unfold expectedNext at h
+  split at h
+  · cases h; rfl
+  · split at h <;> cases h
+
+/-- A stream whose every poll got the reference answer, that has delivered something and has
+seen no update since, has delivered the latest status. -/
+theorem upToDate_of_evsOK (n : Name) (s0 : St) (w : Nat) (l : Hist) (hok : evsOK n s0 w l)
+    (hrep : hasReported w l = true) (hfresh : fresh n w l = false) :
+    lastReported w l = some (latest n s0 l) := by
+  induction l with
+  | nil => simp [hasReported] at hrep
+  | cons e l ih =>
+    obtain ⟨hhead, htail⟩ := hok
+    cases hr : isReport w e with
+    | true =>
+      obtain ⟨s, rfl⟩ := isReport_iff.mp hr
+      have : s = latest n s0 l := expectedNext_value (v := ⟨n, s0, l⟩) (hhead _ rfl).symm
+      rw [lastReported_cons_report, latest_cons_other _ _ _ (by simp), this]
+    | false =>
+      rw [hasReported_cons, hr] at hrep
+      simp only [Bool.false_or] at hrep
+      rw [lastReported_cons_other hr]
+      obtain ⟨op, r⟩ := e
+      by_cases hset : ∃ st, op = Op.set n st
+      · obtain ⟨st, rfl⟩ := hset
+        cases hcl : closed n l with
+        | false => rw [fresh_cons_set_open hcl] at hfresh; cases hfresh
+        | true =>
+          rw [fresh_cons_set_closed hcl] at hfresh
+          rw [latest_cons_closed hcl]
+          exact ih htail hrep hfresh
+      · have hns : ∀ st, (op, r).1 ≠ Op.set n st := fun st e => hset ⟨st, e⟩
+        rw [fresh_cons_other _ hr hns] at hfresh
+        rw [latest_cons_other _ _ _ hns]
+        exact ih htail hrep hfresh
+
+theorem view_evsOK (h : Hist) (hw : wellLogged h) (w : Nat) (v : View) (hv : view h w = some v) :
+    evsOK v.name v.start w v.evs := by
+  induction h generalizing v with
+  | nil => simp [view] at hv
+  | cons e h ih =>
+    obtain ⟨hans, hw'⟩ := hw
+    obtain ⟨op, r⟩ := e
+    -- the pushed case, common to all operations
+    have pushed : ∀ v', view h w = some v' → v = v'.push (op, r) →
+        (∀ r', (op, r) = (Op.next w, r') → r' = expectedNext v' w) →
+        evsOK v.name v.start w v.evs := by
+      intro v' hv' hvv hhead
+      subst hvv
+      exact ⟨fun r' e => hhead r' e, ih hw' v' hv'⟩
+    have headNot : (∀ w', op ≠ Op.next w') → ∀ (v' : View) r', (op, r) = (Op.next w, r') → r' = expectedNext v' w := by
+      intro hne v' r' e; cases e; exact absurd rfl (hne w)
+    cases op with
+    | watch n =>
+      rw [view_cons_watch] at hv
+      split at hv
+      · cases hc : current h n with
+        | none => simp [hc] at hv
+        | some s0 => simp [hc] at hv; subst hv; trivial
+      · cases hv' : view h w with
+        | none => simp [hv'] at hv
+        | some v' =>
+          simp [hv'] at hv
+          exact pushed v' hv' hv.symm (headNot (by simp) v')
+    | drop w' =>
+      rw [view_cons_drop] at hv
+      split at hv
+      · cases hv
+      · cases hv' : view h w with
+        | none => simp [hv'] at hv
+        | some v' =>
+          simp [hv'] at hv
+          exact pushed v' hv' hv.symm (headNot (by simp) v')
+    | next w' =>
+      rw [view_cons_plain _ _ (by simp) (by simp)] at hv
+      cases hv' : view h w with
+      | none => simp [hv'] at hv
+      | some v' =>
+        simp [hv'] at hv
+        refine pushed v' hv' hv.symm ?_
+        intro r' e
+        cases e
+        simp only at hans
+        rw [hans]; simp [expected, hv']
+    | set n st =>
+      rw [view_cons_plain _ _ (by simp) (by simp)] at hv
+      cases hv' : view h w with
+      | none => simp [hv'] at hv
+      | some v' => simp [hv'] at hv; exact pushed v' hv' hv.symm (headNot (by simp) v')
+    | clear n =>
+      rw [view_cons_plain _ _ (by simp) (by simp)] at hv
+      cases hv' : view h w with
+      | none => simp [hv'] at hv
+      | some v' => simp [hv'] at hv; exact pushed v' hv' hv.symm (headNot (by simp) v')
+    | check n =>
+      rw [view_cons_plain _ _ (by simp) (by simp)] at hv
+      cases hv' : view h w with
+      | none => simp [hv'] at hv
+      | some v' => simp [hv'] at hv; exact pushed v' hv' hv.symm (headNot (by simp) v')
+
+theorem latest_mem_statuses (n : Name) (s0 : St) (l : Hist) : latest n s0 l ∈ statuses n s0 l := by
+  induction l with
+  | nil => simp [latest, statuses]
+  | cons e l ih =>
+    obtain ⟨op, r⟩ := e
+    cases hcl : closed n l with
+    | true => simp [latest, statuses, hcl]; exact ih
+    | false =>
+      cases op <;> simp [latest, statuses, hcl] <;> try exact ih
+      case set m st =>
+        by_cases hm : m = n
+        · simp [hm]
+        · simp [hm]; exact ih
+
+/-- The reference answer passes the property's clauses (given a log of reference answers). -/
+theorem allowed_expected (h : Hist) (hw : wellLogged h) (op : Op) : allowed h op (expected h op) = true := by
+  cases op with
+  | set n st => simp [allowed, clauses, expected]
+  | clear n => simp [allowed, clauses, expected]
+  | check n => simp [allowed, clauses, expected]
+  | watch n => simp [allowed, clauses, expected]
+  | drop w => simp [allowed, clauses, expected]
+  | next w =>
+    cases hv : view h w with
+    | none => simp [allowed, clauses, expected, hv]
+    | some v =>
+      have hok := view_evsOK h hw w v hv
+      simp only [allowed, clauses, expected, hv, expectedNext]
+      cases hrep : hasReported w v.evs with
+      | false => simp [latest_mem_statuses]
+      | true =>
+        cases hf : fresh v.name w v.evs with
+        | true => simp [latest_mem_statuses]
+        | false =>
+          have hup := upToDate_of_evsOK v.name v.start w v.evs hok hrep hf
+          cases hcl : closed v.name v.evs <;> simp [upToDate, hup]
+
+theorem allowedTrace_run (h : Hist) (hw : wellLogged h) (ops : List Op) :
+    allowedTrace h (ops.zip (run h ops)) = true := by
+  induction ops generalizing h with
+  | nil => rfl
+  | cons op ops ih =>
+    simp only [run, List.zip_cons_cons, allowedTrace, allowed_expected h hw op, Bool.true_and]
+    exact ih _ ⟨rfl, hw⟩
+
 end Health
